@@ -13,6 +13,7 @@ let () =
     | "c08" -> Fam_print.c08
     | "c13" -> Fam_print.c13
     | "c15" -> Fam_unordered.run
+    | "c06" -> Fam_object.run
     | _ -> prerr_endline ("unknown family " ^ fam); exit 2
   in
   let out = Buffer.create (1 lsl 16) in
